@@ -218,6 +218,13 @@ def spelling_pairs(rep):
         ('e{,3} / List(e, max_len=3)',
          N('Postfix', left=a, operator=N('Repeat', open='{', start=None, stop=py('3'), close='}')),
          call('List', a, max_len=py('3'))),
+        # bounds given by a bound name (data-dependent count): the documented pair holds for names too
+        ('e{m,n} / List(e, min_len=m, max_len=n)',
+         N('Postfix', left=a, operator=N('Repeat', open='{', start=ref('m'), stop=ref('n'), close='}')),
+         call('List', a, min_len=ref('m'), max_len=ref('n'))),
+        ('e{n} / List(e, min_len=n, max_len=n)',
+         N('Postfix', left=a, operator=N('Repeat', open='{', start=ref('n'), stop=ref('n'), close='}')),
+         call('List', a, min_len=ref('n'), max_len=ref('n'))),
         ('a |> f / Apply', N('Infix', left=a, operator='|>', right=b), call('Apply', a, b)),
         ('f <| a / Apply(apply_left)', N('Infix', left=a, operator='<|', right=b), call('Apply', a, b, apply_left=T)),
         ('e where p / Where(e, p)', N('Infix', left=a, operator='where', right=b), call('Where', a, b)),
@@ -240,7 +247,47 @@ def spelling_pairs(rep):
         'f <| a / Apply(apply_left)': ('Apply', ('apply_left', True), ('expr1', canon(a)), ('expr2', canon(b))),
         'e where p / Where(e, p)': ('Where', ('expr', canon(a)), ('predicate', canon(b))),
     }
+    # compositionality: the translation is bottom-up, so an operator applied to an operand that is
+    # itself a repetition / option / choice / sequence must give what the constructor form gives for
+    # the same operand - the translator may not special-case combinations (`(e+)?` is Opt(Some(e)),
+    # not `e*`: the values differ)
+    def inner_operands():
+        mk = [('e', lambda: leaf('a')),
+              ('e+', lambda: create(N('Postfix', left=leaf('a'), operator='+'))),
+              ('e*', lambda: create(N('Postfix', left=leaf('a'), operator='*'))),
+              ('e?', lambda: create(N('Postfix', left=leaf('a'), operator='?'))),
+              ('e{2,3}', lambda: create(N('Postfix', left=leaf('a'), operator=N(
+                  'Repeat', open='{', start=py('2'), stop=py('3'), close='}')))),
+              ('(e | f)', lambda: create(N('Infix', left=leaf('a'), operator='|', right=leaf('f')))),
+              ('[e, f]', lambda: create(N('ListLiteral', elements=[leaf('a'), leaf('f')]))),
+              ('(e // f)', lambda: create(N('Infix', left=leaf('a'), operator='//', right=leaf('f')))),
+              ('(e >> f)', lambda: create(N('Infix', left=leaf('a'), operator='>>', right=leaf('f'))))]
+        return mk
+    post = [('?', 'Opt'), ('*', 'List'), ('+', 'Some')]
+    binary = [('>>', 'Right'), ('<<', 'Left'), ('//', 'Sep')]
+    for ilabel, mk_inner in inner_operands():
+        if ilabel == 'e':
+            continue
+        for op, ctor in post:
+            pairs.append((f'{ilabel}{op} / {ctor}({ilabel})',
+                          ('lazy', lambda mk_inner=mk_inner, op=op: N('Postfix', left=mk_inner(), operator=op)),
+                          ('lazy', lambda mk_inner=mk_inner, ctor=ctor: call(ctor, mk_inner()))))
+        for op, ctor in binary:
+            pairs.append((f'{ilabel} {op} b / {ctor}({ilabel}, b)',
+                          ('lazy', lambda mk_inner=mk_inner, op=op: N('Infix', left=mk_inner(), operator=op, right=leaf('b'))),
+                          ('lazy', lambda mk_inner=mk_inner, ctor=ctor: call(ctor, mk_inner(), leaf('b')))))
+            pairs.append((f'b {op} {ilabel} / {ctor}(b, {ilabel})',
+                          ('lazy', lambda mk_inner=mk_inner, op=op: N('Infix', left=leaf('b'), operator=op, right=mk_inner())),
+                          ('lazy', lambda mk_inner=mk_inner, ctor=ctor: call(ctor, leaf('b'), mk_inner()))))
     for label, t1, t2 in pairs:
+        if isinstance(t1, tuple) and t1[:1] == ('lazy',):
+            try:
+                t1, t2 = t1[1](), t2[1]()
+            except M.MetaRaise as e:
+                rep.add(Finding('MAP-spellings', 'sourcer/translator.py:_create_parsing_expression', label.split(' / ')[0],
+                                f'{label}: translating the operand raises {e}',
+                                'sourcer/translator.py:_create_parsing_expression'))
+                continue
         if label in absolute:
             try:
                 got = canon(create(t1))
